@@ -34,6 +34,7 @@ def check_slots(E, M, ghost, op, kopt_exempt=False):
         anyok = E.any([E.no(E.isnan(M.objval[k])) for k in range(npt)])
         E.prove(E.implies(anyok, E.no(E.isnan(M.objval[kopt]))), op + ':kopt-not-nan-if-some-value-is-not-nan')
     E.prove(M.factorisation_current == False, op + ':factorisation-invalidated')  # noqa: E712
+    E.prove(M.factorisation_current == False, 'C16:%s:cached-factorisation-cleared-by-the-mutation' % op)  # noqa: E712
 
 
 def better(E, a, b):
@@ -45,6 +46,14 @@ def body(E, op, n, m, num_pts, npt_so_far, with_h, scaling=False):
     M, ghost = mk_model(E, n, m, num_pts, npt_so_far, with_h=with_h, xr=True, scaling=scaling)
     npt = M.npt()
     M.factorisation_current = True if op not in ('save_point_abs', 'save_point_rel', 'get_final_results') else False
+    if M.factorisation_current:
+        # a cache marked current comes with its factors (arbitrary values of the right shapes)
+        p_, c_ = npt, n + 1
+        M.qr_of_transpose = p_ < c_
+        M.Q = E.mat('Qc', max(p_, c_), min(p_, c_))
+        M.R = E.mat('Rc', min(p_, c_), min(p_, c_))
+        M.left_scaling = E.np.ones((p_,))
+        M.right_scaling = E.np.ones((c_,))
     kopt0 = M.kopt
     if op in ('change_point', 'change_point_nokopt'):
         growing = npt_so_far < num_pts
@@ -190,7 +199,7 @@ def harnesses(tier, seed):
                     hs.append(Harness(
                         name, 'dfverif.checks.c17', 'body',
                         params=dict(op=op, n=n, m=m, num_pts=num_pts, npt_so_far=npt_so_far, with_h=with_h, scaling=scaling),
-                        cfg=core.Cfg(fork_queries=True, qtimeout_ms=20000 if tier == 'quick' else 60000),
+                        cfg=core.Cfg(fork_queries=True, qtimeout_ms=20000 if tier == 'quick' else 60000, portfolio=scaling, portfolio_s=30),
                         functions=FUNCS,
                         bounds="n=%d, m=%d, num_pts=%d, npt_so_far=%d, sample counts <= 3, one operation from any invariant state" % (n, m, num_pts, npt_so_far),
                         assumptions=["pre-state satisfies the bookkeeping invariant (objval = F(fval_v, point), incumbent minimal and not NaN if some value is not NaN, counts >= 1)",
